@@ -145,3 +145,52 @@ class TempDir:
 
 WEIRD_NAMES = ['A', 'a b', 'x-y', '1abc', '_u', 'Ünï', 'é', '€uro', 'or', 'AND', 'features', 'true', 'a"b', "it's", 'a.b', 'tab\there',
                'semi;colon', '<tag>', 'a&b', '{', 'x' * 40, ' lead', 'trail ', '#', 'NOT', 'requires', 'Integer', 'cardinality', 'abstract', 'null']
+
+
+# -- every constraint tree of a family through one write/read cycle --------------------------------
+
+def ctc_family(ops, names, full):
+    """depth<=2 trees: root in ops (+NOT); children: leaves, negated leaves, and one binary level
+    (every (op, leaf, leaf)); `full` adds negated binary children."""
+    leaves = list(names)
+    kids = leaves + [('NOT', n) for n in leaves]
+    for op in ops:
+        for l in leaves:
+            for r in leaves:
+                kids.append((op, l, r))
+    if full:
+        kids += [('NOT', k) for k in kids if isinstance(k, tuple) and k[0] != 'NOT']
+    trees = [k for k in kids if isinstance(k, tuple)]
+    trees += [('NOT', k) for k in kids if isinstance(k, tuple)]
+    for op in ops:
+        for l in kids:
+            for r in kids:
+                if isinstance(l, tuple) or isinstance(r, tuple):
+                    trees.append((op, l, r))
+    seen = set()
+    out = []
+    for t in trees:
+        if t not in seen:
+            seen.add(t)
+            out.append(t)
+    return out
+
+
+def ctc_tree_batch(modname, cycle_name, ops, lo, hi, full, label):
+    """cycle_name: function(tree) -> list of problems, defined in module modname (used for replay)."""
+    import importlib
+    mod = importlib.import_module(modname)
+    fn = getattr(mod, cycle_name)
+    trees = ctc_family(ops, ['F0', 'F1', 'F2'], full)[lo:hi]
+    res = {'instances': 0, 'nontrivial': 0, 'violations': [], 'native_runs': 0}
+    for t in trees:
+        res['instances'] += 1
+        res['nontrivial'] += 1
+        res['native_runs'] += 1
+        bad = fn(t)
+        if bad:
+            res['violations'].append({'label': label, 'detail': bad[0], 'replay_func': cycle_name, 'replay_args': [t]})
+            if len(res['violations']) >= 4:
+                break
+    res['sample'] = {'family': 'depth<=2 constraint trees over %r' % (ops,), 'tree': repr(trees[-1]) if trees else None}
+    return res
